@@ -61,7 +61,8 @@ Record opts := mkO { o_conds : bool; o_auto : bool; o_attrs : bool; o_nested : b
    shared counter of the current top-level call (m_budget at its start) is positive; every other callback
    name is a no-op.  Machines are not queued, so the follow-up event is processed at once. *)
 Record machine := mkM { m_states : list stree; m_trans : list trans; m_initial : name; m_opts : opts;
-                        m_acts : list (str * str); m_budget : nat }.
+                        m_acts : list (str * str); m_budget : nat;
+                        m_regen : list str (* callbacks that call model.get_graph(force_new=True) *) }.
 
 (* ---------------------------------------------------------------- abstract lines *)
 Inductive line :=
@@ -342,9 +343,9 @@ Definition init_state (m : machine) : dstate :=
   let cur := enter (m_states m) (m_initial m) in mkD m cur (fresh_styles cur) None.
 
 Definition with_states (m : machine) (f : list stree) : machine :=
-  mkM f (m_trans m) (m_initial m) (m_opts m) (m_acts m) (m_budget m).
+  mkM f (m_trans m) (m_initial m) (m_opts m) (m_acts m) (m_budget m) (m_regen m).
 Definition with_trans (m : machine) (ts : list trans) : machine :=
-  mkM (m_states m) ts (m_initial m) (m_opts m) (m_acts m) (m_budget m).
+  mkM (m_states m) ts (m_initial m) (m_opts m) (m_acts m) (m_budget m) (m_regen m).
 
 Definition opt_match (f : option name) (x : option name) : bool :=
   match f with
@@ -385,15 +386,20 @@ Definition cbs_of (forest : list stree) (n : name) (sel : stree -> list str) : l
 
 Definition caller := option (nat -> dstate -> str -> dstate * nat).
 
-Fixpoint run_cbs (call : caller) (acts : list (str * str)) (cs : list str) (st : dstate * nat) : dstate * nat :=
+(* a callback in [regen] regenerates the model's graph from inside the callback: a fresh graph object,
+   styled for the state the model is in at that moment *)
+Fixpoint run_cbs (call : caller) (acts : list (str * str)) (regen : list str) (cs : list str)
+                 (st : dstate * nat) : dstate * nat :=
   match cs with
   | [] => st
   | c :: r =>
-      run_cbs call acts r
-        (match act_of acts c, call, snd st with
-         | Some e, Some f, S b => f b (fst st) e
-         | _, _, _ => st
-         end)
+      run_cbs call acts regen r
+        (if mem c regen
+         then (mkD (d_m (fst st)) (d_cur (fst st)) (fresh_styles (d_cur (fst st))) (d_last (fst st)), snd st)
+         else match act_of acts c, call, snd st with
+              | Some e, Some f, S b => f b (fst st) e
+              | _, _, _ => st
+              end)
   end.
 
 Definition fire_body (call : caller) (budget : nat) (d : dstate) (e : str) : dstate * nat :=
@@ -405,10 +411,10 @@ Definition fire_body (call : caller) (budget : nat) (d : dstate) (e : str) : dst
           | Some dst =>
               let m := d_m d in
               let d0 := mkD m (d_cur d) (mkS [(t_src t, 2)] [(t_src t, dst)]) (Some (t_src t)) in
-              let st1 := run_cbs call (m_acts m) (cbs_of (m_states m) (t_src t) s_exit) (d0, budget) in
+              let st1 := run_cbs call (m_acts m) (m_regen m) (cbs_of (m_states m) (t_src t) s_exit) (d0, budget) in
               let d1 := fst st1 in
               let d2 := mkD (d_m d1) (enter (m_states (d_m d1)) dst) (d_sty d1) (d_last d1) in
-              let st3 := run_cbs call (m_acts m) (cbs_of (m_states m) dst s_enter) (d2, snd st1) in
+              let st3 := run_cbs call (m_acts m) (m_regen m) (cbs_of (m_states m) dst s_enter) (d2, snd st1) in
               let d3 := fst st3 in
               (mkD (d_m d3) (d_cur d3)
                    (mkS (set_nodes (d_cur d3) 1 (st_nodes (d_sty d3))) (st_edges (d_sty d3))) (d_last d3),
@@ -484,16 +490,17 @@ Fixpoint check_scopes (ls : list line) (stk : list name) : option (list name) :=
   | _ :: r => check_scopes r stk
   end.
 
-(* no on_exit callback of any state fires a follow-up event *)
-Fixpoint inert_tree (acts : list (str * str)) (s : stree) : bool :=
+(* no on_exit callback of any state fires a follow-up event or regenerates the graph *)
+Definition cbcfg (m : machine) : list (str * str) * list str := (m_acts m, m_regen m).
+Definition passive (cfg : list (str * str) * list str) (c : str) : bool :=
+  negb (mem c (snd cfg)) && match act_of (fst cfg) c with None => true | Some _ => false end.
+Fixpoint inert_tree (cfg : list (str * str) * list str) (s : stree) : bool :=
   match s with
-  | Node _ _ _ _ _ ex _ _ kids =>
-      forallb (fun c => match act_of acts c with None => true | Some _ => false end) ex
-      && forallb (inert_tree acts) kids
+  | Node _ _ _ _ _ ex _ _ kids => forallb (passive cfg) ex && forallb (inert_tree cfg) kids
   end.
-Definition exit_inert (m : machine) : bool := forallb (inert_tree (m_acts m)) (m_states m).
-Definition op_inert (acts : list (str * str)) (o : op) : bool :=
-  match o with AddState s => inert_tree acts s | _ => true end.
+Definition exit_inert (m : machine) : bool := forallb (inert_tree (cbcfg m)) (m_states m).
+Definition op_inert (cfg : list (str * str) * list str) (o : op) : bool :=
+  match o with AddState s => inert_tree cfg s | _ => true end.
 
 (* labels of all transitions from s to d, in order *)
 Definition labels_for (o : opts) (ts : list trans) (s d : name) : list str :=
